@@ -20,10 +20,11 @@ ASSUMPTIONS = {
 _T = []
 
 
-def h(name, prop, family, bound, tier="quick", required=True, mem=4, timeout=None, desc="",
-      unwind_is_violation=False):
+def h(name, prop, family, bound, tier="quick", required=True, mem=12, timeout=None, desc="",
+      unwind_is_violation=False, kani_args=None):
     _T.append(dict(name=name, prop=prop, family=family, bound=bound, tier=tier, required=required,
-                   mem=mem, timeout=timeout, desc=desc, unwind_is_violation=unwind_is_violation))
+                   mem=mem, timeout=timeout, desc=desc, unwind_is_violation=unwind_is_violation,
+                   kani_args=kani_args or []))
 
 
 # ------------------------------------------------------------------------------------------- C10
@@ -53,7 +54,7 @@ for col in ["client", "left_clock", "right_clock", "info", "parent_info", "type_
 c10("t2_col_range_full", "T2", "rest buffer = every 10-byte string", "Range<u32>::decode over DecoderV2")
 for n in ["client_k8", "left_clock_k8", "info_k8", "len_k8", "string_k8", "ds_k10"]:
     c10("t2_col_" + n, "T2", "column under test = every byte string of length 0..8 (10), 3-4 reads",
-        tier="thorough", required=False, mem=10, timeout=2400)
+        tier="thorough", required=False, mem=24, timeout=2400)
 
 c10("t3_range_v1", "T3", "every byte string <= 6", "Range<u32>::decode v1")
 for c in (0, 1, 2):
@@ -62,7 +63,7 @@ for c in (0, 1, 2):
 c10("t3_id_range_count_v1", "T3", "every byte string <= 6, path cut at the first pushed element",
     "IdRange::decode: reservation made from the count field")
 c10("t3_id_set_v1", "T3", "1 client (id < 128), 1 range, every clock/len byte, every prefix length",
-    "IdSet::decode_v1 (BTreeMap insert of one key)", required=False, timeout=900, mem=8)
+    "IdSet::decode_v1 (BTreeMap insert of one key)", required=False, timeout=900)
 
 for n, b in [("gc", "GC"), ("skip", "Skip"), ("deleted", "Deleted, parent info"),
              ("deleted_o", "Deleted + origin"), ("deleted_r", "Deleted + right origin"),
@@ -70,17 +71,17 @@ for n, b in [("gc", "GC"), ("skip", "Skip"), ("deleted", "Deleted, parent info")
              ("deleted_o_sub", "Deleted + origin + parent-sub flag"), ("binary", "Binary + origin"),
              ("unknown_11", "unknown ref 11"), ("unknown_15", "unknown ref 15")]:
     c10("t4_v1_" + n, "T4", "info byte concrete (%s), then every 4..7-byte string; in-bounds reader "
-        "stubs (truncation is T1's claim)" % b, "Update::decode_block v1", timeout=900, mem=6)
+        "stubs (truncation is T1's claim)" % b, "Update::decode_block v1", timeout=900)
 for n in ["deleted", "binary", "string", "embed", "format", "unknown", "json_0", "json_1", "json_2",
           "type_array", "type_map", "type_text", "type_xml_element", "type_xml_fragment",
           "type_xml_hook", "type_xml_text", "type_subdoc", "type_undefined", "type_unknown",
           "any_hdr"]:
     c10("t4_content_" + n, "T4", "content kind concrete, every payload <= 2..6 bytes, every prefix length",
-        "ItemContent::decode v1 (%s)" % n, mem=6)
+        "ItemContent::decode v1 (%s)" % n)
 c10("t4_content_type_weak", "T4", "weak-link type ref, every 6-byte payload, every prefix length",
-    tier="thorough", required=False, timeout=2400, mem=10)
+    tier="thorough", required=False, timeout=2400, mem=24)
 c10("t4_content_any_bool_int", "T4", "Any content [bool, int(2 bytes)]", tier="thorough",
-    required=False, timeout=2400, mem=10)
+    required=False, timeout=2400, mem=24)
 
 for n in ["undefined", "null", "int", "f32", "f64", "bigint", "false", "true", "string", "buffer",
           "tag_0", "tag_115", "tag_128", "tag_255"]:
@@ -93,7 +94,7 @@ c10("t5_any_map_hdr", "T5", "tag 118 + every 6-byte string; path cut at the fall
 c10("t5_any_array_bool_null", "T5", "array [bool, null]", "Any::decode array of payload-free scalars")
 for n in ["f64_int", "bigint_string"]:
     c10("t5_any_array_" + n, "T5", "array of two payload-carrying scalars", tier="thorough",
-        required=False, timeout=2400, mem=10)
+        required=False, timeout=2400, mem=24)
 
 for n in ["relative", "root", "nested", "bad_tag"]:
     c10("t6_sticky_" + n, "T6", "scope tag concrete, every payload <= 2..5 bytes, every prefix length",
@@ -132,6 +133,160 @@ ASSUMPTIONS["C10"] = [
     "bound nesting by the unwind value",
     "merge_updates / diff_updates / Update::decode past one block / StateVector and AwarenessUpdate past "
     "their reservation / IdMap::decode need a probed HashMap: outside the claim",
+]
+
+
+# ------------------------------------------------------------------------------------------- C16
+def c16(name, family, bound, desc="", **kw):
+    # CBMC's CaDiCaL interface needs > 60 GB while generating the clauses of these instances;
+    # MiniSat decides the same formula in 10-15 GB (measured), so C16 pins the solver.
+    kw.setdefault("kani_args", ["--solver", "minisat"])
+    kw.setdefault("mem", 24)
+    h("c16::" + name, "C16", family, bound, desc=desc, **kw)
+
+
+U = "all u32 bounds symbolic, symbolic argument range(s), symbolic witness clock"
+Q, TH = "quick", "thorough"
+
+
+def a1(name, bound, desc, tier, required, timeout=900):
+    c16(name, "A1", bound, desc, tier=tier, required=required, timeout=timeout)
+
+
+def a2(name, bound, desc, tier, required, timeout=900):
+    c16(name, "A2", bound, desc, tier=tier, required=required, timeout=timeout)
+
+
+# measured (wall / peak RSS) on this sandbox; quick = required set
+a1("a1_insert_p0", "empty pre-state; " + U, "IdRanges<()>::insert", Q, True)                 # 8 s
+a1("a1_insert_p1", "any canonical 1-entry list; " + U, "IdRanges<()>::insert", TH, True, 2400)  # 490 s, 12 GB
+a1("a1_insert_p2", "any canonical 2-entry list; " + U, "IdRanges<()>::insert", TH, False, 2400)  # 516 s, 21 GB
+a1("a1_insert_p3", "any canonical 3-entry list; " + U, "IdRanges<()>::insert", TH, False, 2400)  # > 24 GB
+a1("a1_remove_p1", "any canonical 1-entry list; " + U, "IdRanges<()>::remove", Q, True)       # 9 s
+a1("a1_remove_p2", "any canonical 2-entry list; " + U, "IdRanges<()>::remove", Q, True)       # 115 s
+a1("a1_remove_p3", "any canonical 3-entry list; " + U, "IdRanges<()>::remove", TH, True, 2400)  # 560 s
+a1("a1_exclude_p1_q1", "canonical lists 1 x 1; " + U, "IdRanges<()>::exclude", Q, True)       # 70 s, 3.7 GB
+a1("a1_exclude_p1_q2", "canonical lists 1 x 2; " + U, "IdRanges<()>::exclude", TH, True, 2400)  # 157 s, 6 GB
+a1("a1_exclude_p2_q1", "canonical lists 2 x 1; " + U, "IdRanges<()>::exclude", TH, False, 2400)  # > 24 GB
+a1("a1_exclude_p2_q2", "canonical lists 2 x 2; " + U, "IdRanges<()>::exclude", TH, False, 2400)
+a1("a1_intersect_p1_q1", "canonical lists 1 x 1; " + U, "IdRanges<()>::intersect", Q, True)   # 153 s, 9.5 GB
+a1("a1_intersect_p1_q2", "canonical lists 1 x 2; " + U, "IdRanges<()>::intersect", TH, True, 2400)  # 282 s, 16 GB
+a1("a1_intersect_p2_q1", "canonical lists 2 x 1; " + U, "IdRanges<()>::intersect", TH, False, 2400)
+a1("a1_intersect_p2_q2", "canonical lists 2 x 2; " + U, "IdRanges<()>::intersect", TH, False, 2400)
+for (p_, q_) in ((1, 1), (2, 1), (1, 2), (2, 2)):
+    # T = (): > 24 GB in every shape measured; the same generic function is decided with T = Mask (A2)
+    a1("a1_merge_p%d_q%d" % (p_, q_), "canonical lists %d x %d; %s" % (p_, q_, U), "IdRanges<()>::merge",
+       TH, False, 2400)
+for (p_, q_) in ((1, 1), (2, 2), (3, 2)):
+    a1("a1_queries_p%d_q%d" % (p_, q_), "canonical lists %d x %d; %s" % (p_, q_, U),
+       "subset_of, contains_clock, find_start, clock_start/end, len, is_empty", Q, True)      # 7-13 s
+
+V = "valued lists (3-bit mask values, Merge = bit-or, symbolic values); "
+a2("a2_insert_with_p0", V + "empty pre-state; " + U, "IdRanges<M>::insert_with", Q, True)      # 32 s
+a2("a2_insert_with_p1", V + "1 entry; " + U, "IdRanges<M>::insert_with", Q, True)              # 116 s
+a2("a2_insert_with_p2", V + "2 entries; " + U, "IdRanges<M>::insert_with", TH, True, 2400)     # 830 s
+a2("a2_remove_p1", V + "1 entry; " + U, "IdRanges<M>::remove", Q, True)                        # 10 s
+a2("a2_remove_p2", V + "2 entries; " + U, "IdRanges<M>::remove", Q, True)                      # 23 s
+a2("a2_merge_p1_q1", V + "1 x 1; " + U, "IdRanges<M>::merge", Q, True)                         # 49 s
+a2("a2_merge_p2_q1", V + "2 x 1; " + U, "IdRanges<M>::merge", TH, True, 2400)                  # 184 s
+a2("a2_exclude_p1_q1", V + "1 x 1; " + U, "IdRanges<M>::exclude", Q, True)                     # 31 s
+a2("a2_exclude_p2_q1", V + "2 x 1; " + U, "IdRanges<M>::exclude", Q, True)                     # 36 s
+a2("a2_intersect_p1_q1", V + "1 x 1; " + U, "IdRanges<M>::intersect", Q, True)                 # 41 s
+a2("a2_intersect_p2_q1", V + "2 x 1; " + U, "IdRanges<M>::intersect", Q, True)                 # 87 s
+a2("a2_intersect_p1_q2", V + "1 x 2; " + U, "IdRanges<M>::intersect", Q, True)                 # 84 s
+for n in ("insert_remove", "merge", "diff", "intersect", "order_independent"):
+    # BTreeMap lifting: no instance finished within 40 minutes (DESIGN 2.4); kept as best effort
+    c16("a3_idset_" + n, "A3", "IdSet over concrete client ids {1,2,3}, one symbolic range per client",
+        "IdSet lifting (BTreeMap): " + n, tier="thorough", required=False, timeout=2400)
+
+STUBS += [
+    "C16: SmallVec::new / with_capacity -> the same empty vector, heap-backed with spare capacity 4; "
+    "SmallVec::push / insert / remove / reserve -> capacity-asserting, element-wise models without a "
+    "re-allocation path (smallvec's try_grow and memmove with a symbolic byte count make CBMC's array "
+    "theory run out of memory); SmallVec::drain is the real one",
+]
+ASSUMPTIONS["C16"] = [
+    "pre-states with more entries than the instance's p / q are outside the claim; the step is inductive: "
+    "any canonical pre-state, not a construction history",
+    "canonical pre-state = sorted, non-empty entries, neighbours neither overlapping nor touching "
+    "(valued lists: touching neighbours carry different values)",
+    "IdSet::insert(id, len) is called with clock + len <= u32::MAX (ranges are positions of existing content)",
+    "IdMap's public wrapper (HashSet of attributes), its codec, DeleteSet::from_store, try_squash_with and the "
+    "block iterators need a HashMap / BlockStore: outside the claim",
+    "CBMC solver for this property: MiniSat (CaDiCaL's clause interface exceeds memory)",
+]
+
+
+# ------------------------------------------------------------------------------------------- C13
+FS = ["--cbmc-args", "--max-field-sensitivity-array-size", "1024"]
+C13_BOUND = ("shape %s concrete; ids, clocks (full width), scalar payloads and both cut positions "
+             "symbolic; content %s")
+
+
+def c13(name, family, bound, desc="", **kw):
+    kw.setdefault("kani_args", FS)
+    h("c13::" + name, "C13", family, bound, desc=desc, **kw)
+
+
+for i in range(8):
+    c13("s1_deleted_sh%d" % i, "S1", C13_BOUND % (i, "Deleted(5)"),
+        "ItemSlice::encode vs reference model of splice + Item::encode")
+for n, c in [("abc_sh4", "'abc'"), ("abc_sh0", "'abc'"), ("abc_sh5", "'abc'"),
+             ("wide_sh4", "'a\u00e9\u20ac'"), ("wide_sh3", "'a\u00e9\u20ac'"),
+             ("astral_sh4", "'a\U0001d11eb' (cuts on character boundaries)"),
+             ("astral_sh0", "'a\U0001d11eb' (cuts on character boundaries)"),
+             ("astral2_sh5", "'\U0001d11ea' (cuts on character boundaries)"), ("one_sh4", "'x'")]:
+    c13("s1_string_" + n, "S1", C13_BOUND % (n.split("sh")[1], "String " + c),
+        "ItemSlice::encode / encode_slice / split_str vs reference model", timeout=900)
+for n in ("sh4", "sh0", "sh6"):
+    c13("s1_any_" + n, "S1", C13_BOUND % (n[2:], "Any [BigInt, Bool, BigInt] (symbolic payloads)"),
+        "ItemSlice::encode / encode_slice vs reference model")
+for n in ("sh4", "sh1"):
+    c13("s1_json_" + n, "S1", C13_BOUND % (n[2:], "JSON ['1', '[2]', 'null']"),
+        "ItemSlice::encode / encode_slice vs reference model")
+c13("s2_gc_refusal", "S2", "empty store, skip_gc symbolic, empty snapshot",
+    "Store::encode_state_from_snapshot refuses with Error::Gc and writes nothing", kani_args=[])
+
+STUBS += [
+    "C13/S1: the Encoder is a recording implementation of the public Encoder trait (call kind + arguments); "
+    "ItemSlice::encode / ItemContent::encode_slice run unmodified against it",
+]
+ASSUMPTIONS["C13"] = [
+    "mechanism level: what is decided is that the cut block written by encode_state_from_snapshot "
+    "(ItemSlice::encode) makes exactly the encoder calls of Item::encode on the middle piece of the real "
+    "splice - for every id, clock and cut inside the instance; which blocks are selected "
+    "(write_blocks_to, BlockStore, StateVector: HashMap) is outside the claim",
+    "the reference model of 'splice + Item::encode' is validated against the real ItemPtr::splice and "
+    "Item::encode by the native test c13_model::tests::model_matches_real_splice, run by this check",
+    "equal encoder calls imply equal bytes in v1 and v2 (both encoders are deterministic in the call "
+    "sequence); their call -> bytes mapping is C09's claim",
+    "cuts inside a surrogate pair are excluded (a snapshot / state-vector clock is the end of an insert)",
+    "content kinds Binary / Embed / Format / Type / Doc have length 1 and are never cut",
+]
+
+# ------------------------------------------------------------------------------------------- C09
+def c09(name, family, bound, desc="", **kw):
+    h("c09::" + name, "C09", family, bound, desc=desc, **kw)
+
+
+for t in VAR_TYPES:
+    c09("r1_var_%s" % t, "R1", "every %s value%s" % (t, " except MIN" if t in ("i64", "isize") else ""),
+        "write_var -> read_var round-trip, decoder consumes exactly the output")
+c09("r1_signed_i64", "R1", "every Signed<i64> whose flag agrees with the value's sign (incl. -0), value != MIN",
+    "write_var_signed -> read_var_signed")
+c09("r2_fixed_width", "R2", "every u16/u32/u32_be/u64/i64/f32 bits/f64 bits/u8", "fixed-width writers/readers")
+for n in (0, 1, 3):
+    c09("r2_buf_%d" % n, "R2", "every %d-byte buffer + trailer byte" % n, "write_buf -> read_buf")
+for n in ("empty", "1", "2", "3", "4", "1_4", "3_2"):
+    c09("r2_string_" + n, "R2", "characters of the given UTF-8 widths, symbolic code points",
+        "write_string -> read_string")
+
+ASSUMPTIONS["C09"] = [
+    "wire types backed by a std HashMap beyond their empty value (StateVector, Snapshot.state_map, "
+    "AwarenessUpdate, Any::Map, Update's client table, IdMap attributes), multi-block Updates, serde/JSON "
+    "forms and the Yjs-generated payloads in assets/ are outside the claim",
+    "i64::MIN / isize::MIN are not representable in the lib0 signed var-int format and are never written "
+    "by the library",
 ]
 
 
